@@ -63,6 +63,18 @@ fn one(drv: &mut Drv, rep: &mut Report, source: &str, stream: &[u8], with_spec: 
         }
     }
     let got = decode_impl(stream, w, h);
+    // the same stream through a reader that exposes one byte (and, alternately, three bytes) per
+    // fill_buf call: a valid stream is a valid stream however the reader hands it out
+    for sched in [vec![1usize], vec![3, 1, 2]] {
+        let piecewise = match catch(|| {
+            let mut buf = vec![0x5Au8; (w * h * 4) as usize];
+            hk::vp8l_decode(crate::c10::Chunked::new(stream.to_vec(), sched.clone(), None), w, h, false, &mut buf).map(|()| buf).map_err(|e| format!("{e:?}"))
+        }) { Ok(r) => r, Err(m) => Err(format!("PANIC {m}")) };
+        rep.hit("decoded_through_a_piecewise_reader");
+        if piecewise.is_ok() != got.is_ok() || (piecewise.is_ok() && piecewise != got) {
+            rep.disagree(Disagreement { case: case.clone(), got: match &piecewise { Ok(b) => format!("ok {}", fnv_bytes(FNV_INIT, b)), Err(e) => format!("err {e}") }, expected: match &got { Ok(b) => format!("ok {}", fnv_bytes(FNV_INIT, b)), Err(e) => format!("err {e}") }, class: "violation", obligation: "C01: a valid stream is never rejected and never decoded to different pixels - whatever pieces the reader hands the bytes out in".into(), detail: format!("{source}; reader schedule {sched:?}") });
+        }
+    }
     let digest = |b: &[u8]| format!("ok {w} {h} {}/{}", fnv_bytes(FNV_INIT, b), b.len());
     // the references must agree with each other first (validation of the specification)
     if let (Some(s), Some((_, _, l))) = (&spec, &lib) {
